@@ -1076,12 +1076,17 @@ class SortValues(BaseSetIndexSortValues):
     def _simplify_up(self, parent, dependents):
         from dask_expr._expr import Filter, Head, Tail
 
-        if isinstance(parent, Head):
+        # NFirst / NLast sort with missing values last and know no custom sort
+        # function: only then are they the head / tail of this sort
+        default_order = (
+            self.na_position == "last" and self.operand("sort_function") is None
+        )
+        if isinstance(parent, Head) and default_order:
             return NFirst(
                 self.frame, n=parent.n, _columns=self.by, ascending=self.ascending
             )
 
-        if isinstance(parent, Tail):
+        if isinstance(parent, Tail) and default_order:
             return NLast(
                 self.frame, n=parent.n, _columns=self.by, ascending=self.ascending
             )
